@@ -341,7 +341,10 @@ def handle (st : State) (cmd : String) (inp obs : List String) : State × String
           | .error e =>
             (st, if o = errTok e ∧ mu = "0" ∧ sameMap pre om then "ok" else s!"MISMATCH vec model={errTok e}")
           | .ok c1 =>
-            (st, if o = "ok" ∧ mu = "1" ∧ sameMap c1.randomSeeds om then "ok" else "MISMATCH vec model=ok")
+            -- C06: with named seeds every process draws from its own stream - a configuration that accepted ten
+            -- seeds but is not switched to separate streams runs every process on one generator seeded elsewhere
+            (st, if o = "ok" ∧ mu = "0" then "PROPFAIL C06 named_seeds_not_used read_seeds(vector) accepted ten seeds, multiple_random_seeds stays false"
+                 else if o = "ok" ∧ mu = "1" ∧ sameMap c1.randomSeeds om then "ok" else "MISMATCH vec model=ok")
       | _, _, _ => (st, "BADLINE")
     | _, _ => (st, "BADLINE")
   | "rng.text" =>
@@ -355,7 +358,8 @@ def handle (st : State) (cmd : String) (inp obs : List String) : State × String
         | .error e =>
           (st, if o = errTok e ∧ mu = "0" ∧ sameMap pre om then "ok" else s!"MISMATCH text model={errTok e}")
         | .ok c1 =>
-          (st, if o = "ok" ∧ mu = "1" ∧ sameMap c1.randomSeeds om then "ok"
+          (st, if o = "ok" ∧ mu = "0" then "PROPFAIL C06 named_seeds_not_used read_seeds(text) accepted the seeds, multiple_random_seeds stays false"
+               else if o = "ok" ∧ mu = "1" ∧ sameMap c1.randomSeeds om then "ok"
                else s!"MISMATCH text model=ok {c1.randomSeeds.length} entries")
       | _, _, _, _ => (st, "BADLINE")
     | _, _ => (st, "BADLINE")
